@@ -75,6 +75,20 @@ def input_reachable(ctx):
     return ctx.cg.reachable_from(roots, kinds=("call", "async", "closure", "await", "spawn"))
 
 
+def _const_only(t):
+    """the value is computed from compile-time constants alone (calls of constants are constants for this purpose)"""
+    if not isinstance(t, tuple) or not t:
+        return True
+    k = t[0]
+    if k in ("const", "fn"):
+        return True
+    if k == "call":
+        return all(_const_only(a) for a in t[3])
+    if k in ("cast", "ref", "deref"):
+        return all(_const_only(a) for a in t[1:] if isinstance(a, tuple))
+    return False
+
+
 def r2_no_explicit_panic(ctx, reach):
     n = 0
     hits = 0
@@ -87,6 +101,10 @@ def r2_no_explicit_panic(ctx, reach):
         bad = []
         for c in pcs:
             rv = [why for (pref, suf), why in REVIEWED.items() if key.startswith(pref) and (c.norm or "").endswith(suf)]
+            if not rv and c.args and (c.norm or "").endswith(("::expect", "::unwrap")):
+                t = ctx.origins(body).of_operand(c.args[0])
+                if isinstance(t, tuple) and t[0] == "call" and _const_only(t):
+                    rv = ["the unwrapped value is computed from compile-time constants only (%s): not input" % fmt(t)[:80]]
             if rv:
                 ctx.note("R20.2", "reviewed exception %s in %s: %s" % (c.norm, key, rv[0]))
                 continue
